@@ -168,7 +168,8 @@ class AggSystem(evx.System):
     if ev[0] == 'dp':
       _, metric, kind = ev
       now = self.clock.seconds()
-      ts = {'now': now, 'prev': now - F, 'late3': now - 3 * F, 'old': now - (self.m + 3) * F}[kind]
+      ts = {'now': now, 'prev': now - F, 'late3': now - 3 * F, 'old': now - (self.m + 3) * F,
+            'fracprev': now - F + 0.5, 'fraclate': now - 2 * F + 9.75}[kind]
       value = 2 ** self.n
       interval = int(ts) - int(ts) % F if isinstance(ts, int) else ts - (ts % F)
       aggs = set()
@@ -327,6 +328,8 @@ def stream_configs(ctx):
   cfgs.append(dict({'rules': [('agg.one', 'x.a', 'sum'), ('agg.all', 'x.*', 'sum')], 'm': 2, 'forward_all': False}, **two))
   cfgs.append(dict({'rules': [('x.a', 'x.a', 'sum'), ('agg.all', 'x.*', 'sum')], 'm': 1, 'forward_all': True}, **two))
   cfgs.append({'rules': [('x.a', 'x.a', 'sum')], 'm': 1, 'forward_all': False, 'wbf': 5})
+  # sub-second timestamps (the interval is the whole-second floor aligned to the frequency)
+  cfgs.append({'rules': [('agg.<p>', '<p>.*', 'sum')], 'm': 2, 'start': 1003, 'inputs': ('x.a',), 'kinds': ('now', 'fracprev', 'fraclate')})
   # a received series that is merely NAMED like an aggregate some other series feeds (it matches no rule itself):
   # forwarding must not depend on which aggregate buffers happen to be alive
   cfgs.append({'rules': [('agg.one', 'x.a', 'sum')], 'm': 1, 'forward_all': True, 'inputs': ('x.a', 'agg.one'),
